@@ -4,6 +4,7 @@ package main
 
 import (
 	"go/token"
+	"go/types"
 	"strings"
 
 	"golang.org/x/tools/go/ssa"
@@ -251,8 +252,48 @@ func checkC13(c *Ctx) {
 			}
 			phi, isPhi := p.(*ssa.Phi)
 			if !isPhi {
-				okOrder = false
-				desc = append(desc, norm(be.bytesOf(p, inner).String()))
+				// the points may have been chosen by role BEFORE they were encoded (ra, rb := own, peer; swapped for
+				// the responder): evaluate the part once per role, with every pointer phi governed by thisISA replaced
+				// by the input of that role
+				roleForm := func(role bool) string {
+					nm := map[ssa.Value]string{}
+					for k, v := range names {
+						nm[k] = v
+					}
+					instrsOf(f, func(_ *ssa.BasicBlock, in ssa.Instruction) {
+						ph, ok := in.(*ssa.Phi)
+						if !ok || len(ph.Edges) != 2 {
+							return
+						}
+						if _, isPtr := ph.Type().Underlying().(*types.Pointer); !isPtr {
+							return
+						}
+						nameOf := func(v ssa.Value, at ssa.Instruction) string {
+							switch x := v.(type) {
+							case *ssa.Parameter:
+								return names[x]
+							case *ssa.FieldAddr:
+								return be.fieldPath(x)
+							}
+							return ""
+						}
+						tv, fv, ok := condPhi(ph, thisISA, func(v ssa.Value, at ssa.Instruction) string { return nameOf(v, at) })
+						if !ok {
+							return
+						}
+						if role {
+							nm[ph] = tv
+						} else {
+							nm[ph] = fv
+						}
+					})
+					return norm(newBigEnv(f, nm).bytesOf(p, inner).String())
+				}
+				ta, tb := roleForm(true), roleForm(false)
+				desc = append(desc, "A:"+ta+"/B:"+tb)
+				if ta != want[i-3] || tb != want[(i-3+2)%4] {
+					okOrder = false
+				}
 				continue
 			}
 			tv, fv, ok := condPhi(phi, thisISA, canonB)
